@@ -224,3 +224,219 @@ Proof.
   destruct t as [|c r]; [congruence|].
   intros H. injection H as _ <-. exists [c], r. repeat split; [cbn [bytes_len]; lia | discriminate].
 Qed.
+
+(* ================================================================================================ *)
+(* B. exact walkers inside a file text, boundaries, spans                                            *)
+
+Definition on_boundary (t : text) (i : N) : Prop := exists pre suf, t = pre ++ suf /\ bytes_len pre = i.
+
+Definition vspan (t : text) (sp : span) : Prop :=
+  fst sp <= snd sp /\ snd sp <= bytes_len t /\ on_boundary t (fst sp) /\ on_boundary t (snd sp).
+Definition vospan (t : text) (o : ospan) : Prop := match o with Some sp => vspan t sp | None => True end.
+
+Lemma boundary_le t i : on_boundary t i -> i <= bytes_len t.
+Proof. intros (pre & suf & -> & <-). rewrite blen_app. lia. Qed.
+
+Lemma vspan_intro t s e : on_boundary t s -> on_boundary t e -> s <= e -> vspan t (s, e).
+Proof. intros Hs He Hle. unfold vspan. cbn [fst snd]. repeat split; auto. apply boundary_le. exact He. Qed.
+
+Lemma vspan_join_s t a b : vspan t a -> vspan t b -> vspan t (join_s a b).
+Proof.
+  intros (A1 & A2 & A3 & A4) (B1 & B2 & B3 & B4). unfold join_s. apply vspan_intro.
+  - destruct (N.min_spec (fst a) (fst b)) as [[_ ->]|[_ ->]]; assumption.
+  - destruct (N.max_spec (snd a) (snd b)) as [[_ ->]|[_ ->]]; assumption.
+  - lia.
+Qed.
+
+Lemma vospan_join t a b : vospan t a -> vospan t b -> vospan t (join a b).
+Proof.
+  destruct a as [[s1 e1]|], b as [[s2 e2]|]; cbn [vospan join]; intros A B; auto.
+  apply (vspan_join_s t (s1, e1) (s2, e2)); assumption.
+Qed.
+
+(* the walker is an exact window of the file text t *)
+Definition wf (t : text) (w : walker) : Prop :=
+  exists pre post, t = pre ++ tail w ++ post /\ cur w = bytes_len pre /\ lim w = cur w + bytes_len (tail w).
+
+(* w' is w after consuming `mid` *)
+Definition ext (w w' : walker) : Prop :=
+  exists mid, tail w = mid ++ tail w' /\ cur w' = cur w + bytes_len mid /\ lim w' = lim w.
+
+Lemma ext_refl w : ext w w.
+Proof. exists []. cbn [app bytes_len]. repeat split. lia. Qed.
+
+Lemma ext_trans a b c : ext a b -> ext b c -> ext a c.
+Proof.
+  intros (m1 & T1 & C1 & L1) (m2 & T2 & C2 & L2). exists (m1 ++ m2). rewrite blen_app.
+  repeat split; [rewrite T1, T2, app_assoc; reflexivity | lia | congruence].
+Qed.
+
+Lemma wf_ext t w w' : wf t w -> ext w w' -> wf t w'.
+Proof.
+  intros (pre & post & Ht & Hc & Hl) (mid & T & C & L). exists (pre ++ mid), post.
+  rewrite blen_app. repeat split.
+  - rewrite Ht, T, <- !app_assoc. reflexivity.
+  - lia.
+  - rewrite L, Hl, T, blen_app. lia.
+Qed.
+
+Lemma ext_cur_le w w' : ext w w' -> cur w <= cur w'.
+Proof. intros (mid & _ & C & _). lia. Qed.
+
+Lemma wf_boundary t w : wf t w -> on_boundary t (cur w).
+Proof. intros (pre & post & Ht & Hc & _). exists pre, (tail w ++ post). split; [exact Ht | symmetry; exact Hc]. Qed.
+
+Lemma wf_boundary_in t w p s : wf t w -> tail w = p ++ s -> on_boundary t (cur w + bytes_len p).
+Proof.
+  intros (pre & post & Ht & Hc & _) Hp. exists (pre ++ p), (s ++ post). split.
+  - rewrite Ht, Hp, <- !app_assoc. reflexivity.
+  - rewrite blen_app. lia.
+Qed.
+
+Lemma mk_ext w t' c' mid : tail w = mid ++ t' -> c' = cur w + bytes_len mid -> ext w {| tail := t'; cur := c'; lim := lim w |}.
+Proof. intros T C. exists mid. cbn [tail cur lim]. auto. Qed.
+
+Lemma advance_ext w p s : tail w = p ++ s -> ext w (advance w (bytes_len p)).
+Proof.
+  intros T. exists p. unfold advance. cbn [tail cur lim]. rewrite T, drop_blen_app. auto.
+Qed.
+
+Lemma wf_start t : wf t (start_walker t).
+Proof. exists [], []. unfold start_walker. cbn [tail cur lim app bytes_len]. rewrite app_nil_r. repeat split; lia. Qed.
+
+(* ================================================================================================ *)
+(* C. the walker primitives                                                                          *)
+
+Lemma tok_split t k n : t <> [] -> decide_next_token t = (k, n) ->
+  exists ch p s, t = ch :: p ++ s /\ n = utf8_len ch + bytes_len p.
+Proof.
+  intros Hne H. destruct (decide_next_token_prefix _ _ _ Hne H) as (p & s & -> & -> & Hp).
+  destruct p as [|ch p]; [congruence|]. exists ch, p, s. split; reflexivity.
+Qed.
+
+(* a skip counter is the byte length of a prefix still to pass *)
+Definition skip_ok (t : text) (skip : N) : Prop := exists q s, t = q ++ s /\ skip = bytes_len q.
+
+Lemma skip_ok_0 t : skip_ok t 0.
+Proof. exists [], t. split; reflexivity. Qed.
+
+Lemma skip_ok_step ch r skip : skip_ok (ch :: r) skip -> (skip =? 0) = false -> skip_ok r (skip - utf8_len ch).
+Proof.
+  intros (q & s & Hq & ->) Hz. destruct q as [|c q]; [cbn [bytes_len] in Hz; discriminate|].
+  cbn [app] in Hq. injection Hq as -> ->. exists q, s. split; [reflexivity|]. cbn [bytes_len]. lia.
+Qed.
+
+Lemma skip_ok_tok ch r k n : decide_next_token (ch :: r) = (k, n) -> skip_ok r (n - utf8_len ch).
+Proof.
+  intros H. destruct (tok_split (ch :: r) k n ltac:(discriminate) H) as (c & p & s & E & ->).
+  injection E as <- ->. exists p, s. split; [reflexivity|]. lia.
+Qed.
+
+Lemma skip_ign_ext : forall t c skip t' c', skip_ok t skip -> skip_ign t c skip = (t', c') ->
+  exists mid, t = mid ++ t' /\ c' = c + bytes_len mid.
+Proof.
+  induction t as [|ch r IH]; intros c skip t' c' Hs; cbn [skip_ign].
+  - intros H. injection H as <- <-. exists []. split; [reflexivity | cbn [bytes_len]; lia].
+  - destruct (skip =? 0) eqn:Ez.
+    + destruct (decide_next_token (ch :: r)) as [k n] eqn:Et.
+      destruct (is_ignorable k).
+      * intros H. apply IH in H; [|eapply skip_ok_tok; eassumption].
+        destruct H as (mid & -> & ->). exists (ch :: mid). split; [reflexivity | cbn [bytes_len]; lia].
+      * intros H. injection H as <- <-. exists []. split; [reflexivity | cbn [bytes_len]; lia].
+    + intros H. apply IH in H; [|eapply skip_ok_step; eassumption].
+      destruct H as (mid & -> & ->). exists (ch :: mid). split; [reflexivity | cbn [bytes_len]; lia].
+Qed.
+
+Lemma xskip_ext w : ext w (xskip w).
+Proof.
+  unfold xskip. destruct (skip_ign (tail w) (cur w) 0) as [t' c'] eqn:E.
+  apply skip_ign_ext in E; [|apply skip_ok_0]. destruct E as (mid & T & C). eapply mk_ext; eassumption.
+Qed.
+
+Lemma skip_to_lb_ext : forall t c skip t' c', skip_ok t skip -> skip_to_lb t c skip = Some (t', c') ->
+  exists mid, t = mid ++ t' /\ c' = c + bytes_len mid.
+Proof.
+  induction t as [|ch r IH]; intros c skip t' c' Hs; cbn [skip_to_lb].
+  - intros H. injection H as <- <-. exists []. split; [reflexivity | cbn [bytes_len]; lia].
+  - destruct (skip =? 0) eqn:Ez.
+    + destruct (decide_next_token (ch :: r)) as [k n] eqn:Et.
+      destruct (tkind_eqb k TLineBreak).
+      * intros H. injection H as <- <-.
+        destruct (decide_next_token_prefix (ch :: r) k n ltac:(discriminate) Et) as (p & s & E & -> & _).
+        rewrite E, drop_blen_app. exists p. split; reflexivity.
+      * destruct (is_ignorable k); [|discriminate].
+        intros H. apply IH in H; [|eapply skip_ok_tok; eassumption].
+        destruct H as (mid & -> & ->). exists (ch :: mid). split; [reflexivity | cbn [bytes_len]; lia].
+    + intros H. apply IH in H; [|eapply skip_ok_step; eassumption].
+      destruct H as (mid & -> & ->). exists (ch :: mid). split; [reflexivity | cbn [bytes_len]; lia].
+Qed.
+
+Lemma xnext_linebreak_ext w w' : xnext_linebreak w = Some w' -> ext w w'.
+Proof.
+  unfold xnext_linebreak. destruct (skip_to_lb (tail w) (cur w) 0) as [[t' c']|] eqn:E; [|discriminate].
+  intros H. injection H as <-. apply skip_to_lb_ext in E; [|apply skip_ok_0].
+  destruct E as (mid & T & C). eapply mk_ext; eassumption.
+Qed.
+
+(* the token at an exact walker: stepping over it stays exact, and its span is valid *)
+Lemma xtoken_ext w k n : xtoken w = (k, n) -> ext w (advance w n) /\ exists p s, tail w = p ++ s /\ n = bytes_len p.
+Proof.
+  unfold xtoken. destruct (tail w) as [|ch r] eqn:T.
+  - intros H. injection H as _ <-. split.
+    + exists []. unfold advance. cbn [tail cur lim]. rewrite T. cbn [drop_bytes app bytes_len]. repeat split. lia.
+    + exists [], []. split; reflexivity.
+  - intros H. destruct (decide_next_token_prefix (ch :: r) k n ltac:(discriminate) H) as (p & s & E & -> & _).
+    split.
+    + apply (advance_ext w p s). rewrite T. exact E.
+    + exists p, s. split; [exact E | reflexivity].
+Qed.
+
+Lemma tok_span t w k n : wf t w -> xtoken w = (k, n) -> vspan t (cur w, cur w + n).
+Proof.
+  intros Hw H. apply xtoken_ext in H. destruct H as (_ & p & s & T & ->).
+  apply vspan_intro; [apply wf_boundary; exact Hw | eapply wf_boundary_in; eassumption | lia].
+Qed.
+
+Lemma xmaybe_expect_sp_ext t w k w' sp txt : wf t w -> xmaybe_expect_sp w k = Some (w', sp, txt) -> ext w w' /\ vspan t sp.
+Proof.
+  intros Hw. unfold xmaybe_expect_sp, xnext_useful.
+  destruct (xtoken (xskip w)) as [k' n] eqn:E. destruct (tkind_eqb k k'); [|discriminate].
+  intros H. injection H as <- <- _.
+  pose proof (xskip_ext w) as E1. split.
+  - eapply ext_trans; [exact E1|]. apply xtoken_ext in E. tauto.
+  - eapply tok_span; [eapply wf_ext; eassumption | exact E].
+Qed.
+
+Lemma xmaybe_expect_ext w k w' txt : xmaybe_expect w k = Some (w', txt) -> ext w w'.
+Proof.
+  unfold xmaybe_expect, xmaybe_expect_sp, xnext_useful.
+  destruct (xtoken (xskip w)) as [k' n] eqn:E. destruct (tkind_eqb k k'); [|discriminate].
+  intros H. injection H as <- _.
+  eapply ext_trans; [apply xskip_ext|]. apply xtoken_ext in E. tauto.
+Qed.
+
+Lemma xexpect_ext w k w' txt : xexpect w k = POk txt w' -> ext w w'.
+Proof.
+  unfold xexpect. destruct (xmaybe_expect w k) as [[w1 t1]|] eqn:E; [|discriminate].
+  intros H. injection H as _ <-. eapply xmaybe_expect_ext; eassumption.
+Qed.
+
+Lemma xexpect_sp_ext t w k w' r : wf t w -> xexpect_sp w k = POk r w' -> ext w w' /\ vspan t (fst r).
+Proof.
+  intros Hw. unfold xexpect_sp. destruct (xmaybe_expect_sp w k) as [[[w1 sp] t1]|] eqn:E; [|discriminate].
+  intros H. injection H as <- <-. cbn [fst]. eapply xmaybe_expect_sp_ext; eassumption.
+Qed.
+
+Lemma xexpect_linebreak_ext w w' u : xexpect_linebreak w = POk u w' -> ext w w'.
+Proof.
+  unfold xexpect_linebreak. destruct (xnext_linebreak w) as [w1|] eqn:E; [|discriminate].
+  intros H. injection H as _ <-. apply xnext_linebreak_ext. exact E.
+Qed.
+
+Lemma xfind_op_ext ops : forall w w' o, xfind_op w ops = Some (w', o) -> ext w w'.
+Proof.
+  induction ops as [|[k o0] ops IH]; intros w w' o; cbn [xfind_op]; [discriminate|].
+  destruct (xmaybe_expect w k) as [[w1 t1]|] eqn:E.
+  - intros H. injection H as <- _. eapply xmaybe_expect_ext; eassumption.
+  - apply IH.
+Qed.
